@@ -67,6 +67,8 @@ Pool == <<
   Ok_("parse_ct_signed_certificate_timestamp_list", NoArgs, BE16(2 * Len(EncSct(Sc)) + 1) \o EncSct(Sc) \o EncSct(Sc) \o <<0>>),
   Ok_("parse_dh_params", NoArgs, <<0, 2, 1, 2, 0, 0, 0, 1, 5>>),
   Ok_("parse_ecdh_params", NoArgs, <<3, 0, 23, 2, 4, 4>>),
+  Ok_("parse_ecdh_params", NoArgs, <<3, 0, 29, 2, 4, 4>>), Ok_("parse_ecdh_params", NoArgs, <<3, 0, 30, 1, 9>>), Ok_("parse_ecdh_params", NoArgs, <<3, 0, 29, 0>>),   \* x25519 / x448: the point is still length-prefixed
+  Ok_("parse_ecdh_params", NoArgs, <<3, 0, 29, 33>> \o Fill(2, 33)), Ok_("parse_content_and_signature", [Sig1 EXCEPT !.sub = "ecdh"], <<3, 0, 30, 2, 4, 4, 4, 3, 0, 1, 9>>),
   Ok_("parse_ec_parameters", NoArgs, <<3, 0, 29>>),
   Ok_("parse_ec_parameters", NoArgs, <<1, 1, 7, 0, 1, 1, 2, 4, 4, 0, 1, 1>>),
   Ok_("ECPoint::parse", NoArgs, <<2, 4, 4>>),
